@@ -10,7 +10,15 @@ struct MinHeapEntry<'a> {
 impl Ord for MinHeapEntry<'_> {
     fn cmp(&self, other: &Self) -> Ordering {
         // self.m.reception_time_us.cmp(&other.m.reception_time_us) // regular, we do need reverse
-        other.m.reception_time_us.cmp(&self.m.reception_time_us) // reversed
+        other
+            .m
+            .reception_time_us
+            .cmp(&self.m.reception_time_us) // reversed
+            // on same reception time use a tie-break that doesn't depend on the order of the iterators:
+            .then_with(|| other.m.ecu.as_u32le().cmp(&self.m.ecu.as_u32le()))
+            .then_with(|| other.m.timestamp_dms.cmp(&self.m.timestamp_dms))
+            .then_with(|| other.m.mcnt().cmp(&self.m.mcnt()))
+            .then_with(|| other.m.payload.cmp(&self.m.payload))
     }
 }
 
@@ -21,7 +29,7 @@ impl PartialOrd for MinHeapEntry<'_> {
 }
 impl PartialEq for MinHeapEntry<'_> {
     fn eq(&self, other: &Self) -> bool {
-        self.m.reception_time_us == other.m.reception_time_us
+        self.cmp(other) == Ordering::Equal
     }
 }
 impl Eq for MinHeapEntry<'_> {}
